@@ -146,9 +146,19 @@ def key_rule(ctx):
             r.idiom("R18.3", False, key, k.where, "the sort key function is not evaluable (%s)" % str(e)[:80])
             continue
         exp = (item[0][0] or "", item[0][1])
-        r.check("R18.3", got == exp, key, k.where,
+        r.check("R18.3", isinstance(got, tuple) and got[:2] == exp, key, k.where,
                 "the sort key of attribute %r is %r; it must be (namespace or '', local name) = %r so that un-namespaced attributes "
                 "sort together and None never meets a string" % (item[0], got, exp), detail={"item": item[0], "key": got})
+    # the order has to be total on attribute keys: (None, x) and ('', x) are two attributes (the etree walker reports `{}x` as
+    # ('', 'x')), and with equal sort keys their order in the output is their order in the input
+    try:
+        k1 = interp.run(k.node.body, {a: ((None, "x"), "1")}).value
+        k2 = interp.run(k.node.body, {a: (("", "x"), "2")}).value
+        r.check("R18.3", k1 != k2, "key-total[None vs '']", k.where,
+                "the attributes (None, 'x') and ('', 'x') get the same sort key %r: sorted() is stable, so their order in the output is their "
+                "order in the input -- the result depends on the incoming order" % (k1,), detail={"keys": [repr(k1), repr(k2)]})
+    except AnalysisError as e:
+        r.idiom("R18.3", False, "key-total[None vs '']", k.where, "the sort key function is not evaluable (%s)" % str(e)[:80])
     calls = [norm(n) for n in ast.walk(k.node) if isinstance(n, ast.Call)]
     r.check("R18.3", not calls, "key-pure", k.where, "the sort key calls %s: it must depend on the attribute key only" % calls)
 
@@ -162,8 +172,9 @@ def mutants():
     from ..selftest import TextMutant as T
     return [
         T("sorted-without-key", REL, "                for name, value in sorted(token[\"data\"].items(),\n                                          key=_attr_key):", "                for name, value in sorted(token[\"data\"].items()):", "R18.2"),
-        T("key-none", REL, "    return (attr[0][0] or ''), attr[0][1]", "    return attr[0][0], attr[0][1]", "R18.3"),
-        T("key-local-only", REL, "    return (attr[0][0] or ''), attr[0][1]", "    return attr[0][1]", "R18.3"),
+        T("key-none", REL, "    return (attr[0][0] or ''), attr[0][1], attr[0][0] is not None", "    return attr[0][0], attr[0][1]", "R18.3"),
+        T("key-ties", REL, "    return (attr[0][0] or ''), attr[0][1], attr[0][0] is not None", "    return (attr[0][0] or ''), attr[0][1]", "R18.3"),
+        T("key-local-only", REL, "    return (attr[0][0] or ''), attr[0][1], attr[0][0] is not None", "    return attr[0][1]", "R18.3"),
         T("merge-by-local", REL, "                    attrs[name] = value", "                    attrs[(None, name[1])] = value", "R18.2"),
         T("endtag-touched", REL, "            if token[\"type\"] in (\"StartTag\", \"EmptyTag\"):", "            if token[\"type\"] in (\"StartTag\", \"EmptyTag\", \"EndTag\"):", "R18.1"),
         T("emptytag-skipped", REL, "            if token[\"type\"] in (\"StartTag\", \"EmptyTag\"):", "            if token[\"type\"] in (\"StartTag\",):", "R18.1"),
